@@ -1016,5 +1016,6 @@ func cmdC13Script(seed uint64, n int, dir string) {
 		st.Histogram[k] = v
 	}
 	c13LiteralOracle(st, newRng(seed^0xC13117), 300+10*n) // c13lit.go: native oracle (strconv.Unquote / UnquoteChar), no toolchain needed
+	c13ConcatImmutability(st, newRng(seed^0xC13CA7), 60+2*n) // c13cat.go
 	st.write(dir + "/C13_script_stats.json")
 }
